@@ -51,6 +51,38 @@ def snapshot(p):
     return Snap(p)
 
 
+class WireTap:
+    """Cut the transport at dul.send_pdu: the real dimse.send_msg (primitive -> message -> encoded,
+    fragmented P-DATA) runs, the P-DATA primitives are collected and re-assembled with the real
+    DIMSEMessage decoder exactly as the peer's DIMSE provider would, and the primitive the peer
+    would have received is returned.  Exceptions of the real send path propagate as in production."""
+
+    def __init__(self, assoc):
+        self.assoc = assoc
+        self.real_send = assoc.dimse.send_msg
+        self.pdus = []
+        self.log = []          # one record per message: dict(primitive, context_id, pdv=[(ctx, header, len)], undelivered)
+        assoc.dul.send_pdu = self.pdus.append
+
+    def send(self, primitive, context_id):
+        from pynetdicom.dimse_messages import DIMSEMessage
+
+        del self.pdus[:]
+        self.real_send(primitive, context_id)
+        msg = DIMSEMessage()
+        done, pdv = False, []
+        for p in list(self.pdus):
+            for cid, data in p.presentation_data_value_list:
+                pdv.append((cid, data[0], len(data) - 1))
+            if msg.decode_msg(p, self.assoc):
+                done = True
+        got = msg.message_to_primitive() if done else None
+        rec = {"primitive": got, "context_id": context_id, "pdv": pdv, "delivered": done,
+               "cdst": int(msg.command_set.CommandDataSetType) if done and "CommandDataSetType" in msg.command_set else None}
+        self.log.append(rec)
+        return rec
+
+
 class ScuRig:
     def __init__(self, contexts, mode="requestor", dimse_timeout=0.05):
         """contexts: list of (context_id, abstract, transfer syntax, as_scu, as_scp)"""
@@ -75,13 +107,15 @@ class ScuRig:
         self.pdata = []
         self.aborts = 0
         self.lock_held_at_yield = []
+        self.tap = WireTap(a)
         a.dimse.send_msg = self._send_msg
         a.abort = self._abort
         a._abort_blocking = self._abort
         a._abort_nonblocking = self._abort
 
     def _send_msg(self, primitive, context_id):
-        self.sent.append((snapshot(primitive), context_id))
+        rec = self.tap.send(primitive, context_id)
+        self.sent.append((snapshot(rec["primitive"] if rec["primitive"] is not None else primitive), context_id))
 
     def _abort(self, *a, **k):
         self.aborts += 1
